@@ -2465,7 +2465,16 @@ func newRepo(uuid dvid.UUID, v dvid.VersionID, id dvid.RepoID, passcode string) 
 func (r *repoT) branchHeads() map[string]dvid.UUID {
 	branchToUUID := make(map[string]dvid.UUID)
 	for _, node := range r.dag.nodes {
-		if len(node.children) == 0 {
+		// A node heads its branch unless one of its children continues that branch;
+		// children on other branches (POST branch) do not move the head.
+		head := true
+		for _, c := range node.children {
+			if child, found := r.dag.nodes[c]; found && child.branch == node.branch {
+				head = false
+				break
+			}
+		}
+		if head {
 			branchToUUID[node.branch] = node.uuid
 		}
 	}
